@@ -8,8 +8,12 @@ type Int struct {
 	*Characteristic
 }
 
+// NewInt returns a characteristic with the format int (int32).
+// The other integer formats are set by assigning the Format field.
 func NewInt(typ string) *Int {
 	number := NewCharacteristic(typ)
+	number.Format = FormatInt32
+
 	return &Int{number}
 }
 
